@@ -292,6 +292,26 @@ func c02Case(r *obs.Run, i int) {
 					r.Count("bed_records_read_with_narrower_reader", 1)
 				}
 			}
+			// the same bytes from a source that fails with an error of its own part-way: whatever the reader hands out
+			// without an error before that is still a record that was written, never a shortened one
+			if len(data) > 0 {
+				fsrc := newSrc(rng, data)
+				fsrc.failing, fsrc.failAt = true, rng.Intn(len(data)+1)
+				if fr, err := bed.NewReader(fsrc, m); err == nil {
+					for k := 0; k <= nrec+1; k++ {
+						f, err := fr.Read()
+						if err != nil {
+							break
+						}
+						if k >= nrec || !reflect.DeepEqual(f, c02BedWant(orig[k], m, f)) {
+							w["source_fails_after_bytes"] = fsrc.failAt
+							fail("record-differs", fmt.Sprintf("bed%d written at %d, read from a source that fails after %d of %d bytes: record %d comes back without an error as %+v", n, m, fsrc.failAt, len(data), k, f))
+							return
+						}
+					}
+					r.Count("bed_files_read_from_a_failing_source", 1)
+				}
+			}
 			// the same bytes through featio.Scanner
 			if br2, err := bed.NewReader(newSrc(rng, data), m); err == nil {
 				sc := featio.NewScanner(br2)
@@ -439,7 +459,18 @@ func c02Case(r *obs.Run, i int) {
 			if width > 1000 || rng.Intn(20) == 0 {
 				sl = 3000 + rng.Intn(17000)
 			}
-			sq := linear.NewSeq(genNoSpace(rng), alphabet.BytesToLetters([]byte(genLetters(rng, al, sl))), al)
+			body := []byte(genLetters(rng, al, sl))
+			if al == alphabet.Protein && width > 0 && sl > width+4 && rng.Intn(2) == 0 {
+				// e, n, d and - are letters of the protein alphabet: a body line may begin with the first four bytes of
+				// the "end-Protein" line that closes the block, and is a body line all the same
+				at := width * (1 + rng.Intn((sl-4)/width))
+				copy(body[at:], "end-")
+				if at+11 <= len(body) && string(body[at:at+11]) == "end-Protein" {
+					body[at+4] = 'a'
+				}
+				r.Count("inline_protein_sequences_with_a_line_beginning_end-", 1)
+			}
+			sq := linear.NewSeq(genNoSpace(rng), alphabet.BytesToLetters(body), al)
 			if rng.Intn(3) == 0 {
 				sq.Desc = genDesc(rng)
 			}
